@@ -22,8 +22,9 @@ VERIF = os.path.dirname(os.path.dirname(os.path.abspath(__file__)))
 REPO = os.environ.get("FGGS_REPO", "/repo")
 COQDIR = os.path.join(VERIF, "coq")
 BUILD = os.path.join(VERIF, "build")
-EVID = os.path.join(VERIF, "evidence")
-REPLAYS = os.path.join(VERIF, "replays")
+# evidence is committed only from runs against /repo; runs against another tree (seeded changes) write elsewhere
+EVID = os.path.join(VERIF, "evidence") if REPO == "/repo" else os.path.join(BUILD, "evidence-other-tree")
+REPLAYS = os.path.join(VERIF, "replays") if REPO == "/repo" else os.path.join(BUILD, "replays-other-tree")
 DRIVER = os.path.join(BUILD, "ocaml", "driver.exe")
 
 # ----------------------------------------------------------------------------
